@@ -329,6 +329,13 @@ func (e *Enc) havocLoop(li *loopInfo) {
 			}
 			e.st.m[k] = e.fresh("lh_"+k, e.compKeySort(k))
 		}
+		for _, k := range sortedKeys(li.mods) {
+			if e.refComp[k] {
+				if _, known := e.compSort[k]; known {
+					e.closure(k, e.st.m[k], e.get(e.st, e.allocKey()))
+				}
+			}
+		}
 		if li.mods["alloc"] {
 			e.assert(fmt.Sprintf("(>= %s %s)", e.get(e.st, e.allocKey()), oldAlloc))
 		}
